@@ -74,14 +74,34 @@ Fixpoint lnat_eqb (a b : list nat) : bool :=
 
 (* ---------- candidate actions of a state (everything except issuing a control call) ---------- *)
 Definition run_acts_of (i : nat) : list act :=
-  [AOpen i; AOpenFail i; AOpenBusy i; ATd i; AEnd i;
+  [AOpen i; AOpenFail i; AOpenBusy i; ATd i; AEnd i; AConflict i;
    AKill i CaFatal; AKill i CaTransient; AKill i CaForce].
 
+(* the choices that matter at a Start position / a cleanup position / a user-call position *)
+Definition choices_spc (pc : spc) : list nat :=
+  match pc with
+  | SOpenA _ => [0; 1; 2; 3]
+  | SOpenSrc _ | SOpenDlq _ => [0; 1]
+  | _ => [0]
+  end.
+Definition choices_cpc (pc : cpc) : list nat :=
+  match pc with
+  | CWait | CBackoff => [0; 1]
+  | CStart q => choices_spc q
+  | _ => [0]
+  end.
+Definition choices_upc (pc : upc) : list nat :=
+  match pc with
+  | UStart q => choices_spc q
+  | UAct _ _ _ => [0; 1]
+  | _ => [0]
+  end.
+
 Definition thread_acts (s : st) : list act :=
-  (match s_user s with None => [] | Some _ => [AUser 0; AUser 1; AUser 2] end)
+  (match s_user s with None => [] | Some (_, _, pc) => map AUser (choices_upc pc) end)
   ++ map (fun w => AWaiter (fst w)) (s_waits s)
   ++ flat_map (fun i => match s_cleans s i with
-                        | Some _ => [AClean i 0; AClean i 1; AClean i 2]
+                        | Some pc => map (AClean i) (choices_cpc pc)
                         | None => []
                         end) (seq 0 (s_next s)).
 
@@ -171,7 +191,8 @@ Definition succ_by (c : cfg) (p : label -> bool) (s : st) : list st :=
                      | None => []
                      end) (all_acts s).
 
-Fixpoint closure (c : cfg) (fuel : nat) (frontier acc : list st) (encs : vset) : list st :=
+(* cap: once the visited set is larger than cap the search stops (the caller then gives the log up) *)
+Fixpoint closure (c : cfg) (cap fuel : nat) (frontier acc : list st) (encs : vset) : list st :=
   match fuel with
   | 0 => acc
   | S f =>
@@ -180,13 +201,13 @@ Fixpoint closure (c : cfg) (fuel : nat) (frontier acc : list st) (encs : vset) :
       | _ =>
           let nxt := flat_map (succ_by c is_tau) frontier in
           let '(acc', encs', fresh) := add_new nxt acc encs in
-          closure c f fresh acc' encs'
+          if cap <? length acc' then acc' else closure c cap f fresh acc' encs'
       end
   end.
 
-Definition tau_close (c : cfg) (X : list st) : list st :=
+Definition tau_close (c : cfg) (cap : nat) (X : list st) : list st :=
   let '(acc, encs, fresh) := add_new X [] (PositiveMap.empty unit) in
-  closure c 64 fresh acc encs.
+  closure c cap 64 fresh acc encs.
 
 (* one observation: a call is issued by the environment, an injection is optional, everything else
    must be a step of the model *)
@@ -198,27 +219,31 @@ Definition obs_succ (c : cfg) (X : list st) (o : obs) : list st :=
   | _ => flat_map (succ_by c (obs_matches o)) X
   end.
 
-Fixpoint accept_from (c : cfg) (X : list st) (log : list obs) : bool :=
+(* Some true: the log is a trace of the model; Some false: it is not; None: the set of candidate model
+   states grew beyond cap, the search was given up (the log is neither accepted nor rejected) *)
+Fixpoint accept_from (c : cfg) (cap : nat) (X : list st) (log : list obs) : option bool :=
   match log with
-  | [] => negb (match X with [] => true | _ => false end)
+  | [] => Some (negb (match X with [] => true | _ => false end))
   | o :: t =>
-      match tau_close c (obs_succ c X o) with
-      | [] => false
-      | X' => accept_from c X' t
+      match tau_close c cap (obs_succ c X o) with
+      | [] => Some false
+      | X' => if cap <? length X' then None else accept_from c cap X' t
       end
   end.
 
-Definition accepts (c : cfg) (log : list obs) : bool := accept_from c (tau_close c [init]) log.
+Definition accepts (c : cfg) (cap : nat) (log : list obs) : option bool :=
+  accept_from c cap (tau_close c cap [init]) log.
 
 (* index of the first observation that empties the state set (for diagnostics) *)
-Fixpoint reject_at (c : cfg) (X : list st) (log : list obs) (i : nat) : option nat :=
+Fixpoint reject_at (c : cfg) (cap : nat) (X : list st) (log : list obs) (i : nat) : option nat :=
   match log with
   | [] => None
   | o :: t =>
-      match tau_close c (obs_succ c X o) with
+      match tau_close c cap (obs_succ c X o) with
       | [] => Some i
-      | X' => reject_at c X' t (S i)
+      | X' => if cap <? length X' then None else reject_at c cap X' t (S i)
       end
   end.
 
-Definition rejects_at (c : cfg) (log : list obs) : option nat := reject_at c (tau_close c [init]) log 0.
+Definition rejects_at (c : cfg) (cap : nat) (log : list obs) : option nat :=
+  reject_at c cap (tau_close c cap [init]) log 0.
